@@ -64,6 +64,8 @@ def local_names(func) -> Set[str]:
     for n in ast.walk(func):
         if isinstance(n, ast.Name) and isinstance(n.ctx, (ast.Store, ast.Del)):
             names.add(n.id)
+        elif isinstance(n, (ast.FunctionDef, ast.AsyncFunctionDef)) and n is not func:
+            names.add(n.name)           # a nested function is a local of its enclosing function
         elif isinstance(n, (ast.FunctionDef, ast.AsyncFunctionDef, ast.ClassDef)) and n is not func:
             names.add(n.name)
         elif isinstance(n, ast.ExceptHandler) and n.name:
@@ -212,8 +214,25 @@ class _Subst(ast.NodeTransformer):
         return node
 
 
+def _split_parallel(st):
+    """`a, b = (x, y)` produced by inlining a `return x, y`: sequential assignments when no later value reads an earlier target (otherwise the statement stays)"""
+    if not (isinstance(st, ast.Assign) and len(st.targets) == 1 and isinstance(st.targets[0], (ast.Tuple, ast.List)) and isinstance(st.value, (ast.Tuple, ast.List))
+            and len(st.targets[0].elts) == len(st.value.elts) and all(isinstance(t, ast.Name) for t in st.targets[0].elts)
+            and not any(isinstance(v, ast.Starred) for v in st.value.elts)):
+        return [st]
+    names = [t.id for t in st.targets[0].elts]
+    for j, v in enumerate(st.value.elts):
+        reads = {n.id for n in ast.walk(v) if isinstance(n, ast.Name)}
+        # a value may read its own target (self-assignment `a = a` is dropped, `a = f(a)` is sequentially the same) but not an earlier, different target that changes
+        for i in range(j):
+            if names[i] in reads and not (isinstance(st.value.elts[i], ast.Name) and st.value.elts[i].id == names[i]):
+                return [st]
+    return [ast.copy_location(ast.Assign(targets=[ast.Name(id=nm, ctx=ast.Store())], value=v, lineno=st.lineno), st) for nm, v in zip(names, st.value.elts)]
+
+
 def _drop_self_assign(stmts):
     out = []
+    stmts = [x for st in stmts for x in _split_parallel(st)]
     for st in stmts:
         if isinstance(st, ast.Assign) and len(st.targets) == 1 and isinstance(st.targets[0], ast.Name) and isinstance(st.value, ast.Name) and st.value.id == st.targets[0].id:
             continue
@@ -242,6 +261,19 @@ class Inliner:
         inv = inventory().get(rel)
         self.funcs = _functions(tree)
         self.new = {} if inv is None else {q: v for q, v in self.funcs.items() if q not in inv["functions"]}
+        # new closures: a function defined inside an inventoried function under a name the reference does not know.  Inlining a closure at its call site preserves the
+        # meaning exactly (its free variables are the enclosing function's variables, read at call time in both versions), provided it declares no nonlocal / global
+        if inv is not None:
+            for q, (func, cls, _) in list(self.funcs.items()):
+                ref = inv["functions"].get(q)
+                if ref is None:
+                    continue
+                for blk in _blocks(func):
+                    for st in blk:
+                        if isinstance(st, ast.FunctionDef) and st.name not in ref and not any(isinstance(n, (ast.Nonlocal, ast.Global, ast.Yield, ast.YieldFrom)) for n in ast.walk(st)) \
+                                and not st.decorator_list:
+                            self.new[f"{q}.<locals>.{st.name}"] = (st, None, blk)
+        self.cur_q = None
         self.counter = 0
         self.failed: Set[str] = set()
         self.failed_expr: Set[str] = set()
@@ -263,6 +295,8 @@ class Inliner:
 
     def resolve(self, call, cls):
         f = call.func
+        if isinstance(f, ast.Name) and self.cur_q is not None and f"{self.cur_q}.<locals>.{f.id}" in self.new:
+            return f"{self.cur_q}.<locals>.{f.id}", False
         if isinstance(f, ast.Name) and f.id in self.new and self.new[f.id][1] is None:
             return f.id, False
         if isinstance(f, ast.Attribute) and isinstance(f.value, ast.Name):
@@ -341,6 +375,14 @@ class Inliner:
         keep = set()
         if mode == "assign" and target and len(target) == 1 and isinstance(target[0], ast.Name):
             keep.add(target[0].id)
+        elif mode == "assign" and target and len(target) == 1 and isinstance(target[0], (ast.Tuple, ast.List)) and all(isinstance(e, ast.Name) for e in target[0].elts):
+            # `a, b = helper(...)` where every return of the helper is `return a, b` position by position: the helper's locals a, b are the caller's a, b
+            rets = [r for st in body for r in ast.walk(st) if isinstance(r, ast.Return)]
+            tn = [e.id for e in target[0].elts]
+            if rets and all(isinstance(r.value, ast.Tuple) and len(r.value.elts) == len(tn) for r in rets):
+                for i, nm in enumerate(tn):
+                    if all(isinstance(r.value.elts[i], ast.Name) and r.value.elts[i].id == nm for r in rets) and tn.count(nm) == 1:
+                        keep.add(nm)
         arg_reads = {n.id for a in binding.values() for n in ast.walk(a) if isinstance(n, ast.Name)}
         keep -= arg_reads
         caller_names = set(caller_names) - keep
@@ -382,6 +424,7 @@ class Inliner:
     # ------------------------------------------------------------------
     def rewrite_function(self, q) -> bool:
         func, cls, _ = self.funcs[q]
+        self.cur_q = q
         changed = self.inline_expressions(func, cls)
         for _ in range(6):
             names = local_names(func) | {n.id for n in ast.walk(func) if isinstance(n, ast.Name)}
@@ -574,7 +617,7 @@ class Inliner:
             return False
         changed = False
         # helpers first (so that helpers calling helpers are flattened), then everything else
-        order = sorted(self.new) + [q for q in sorted(self.funcs) if q not in self.new]
+        order = [q for q in sorted(self.new) if q in self.funcs] + [q for q in sorted(self.funcs) if q not in self.new]
         for _ in range(3):
             any_change = False
             for q in order:
@@ -959,6 +1002,33 @@ def expand_star_tuples(func, ref_locals: Set[str]) -> bool:
     return changed
 
 
+def _literal_iter(it, func, ref_locals, depth=0):
+    """the literal tuple a loop iterates over, for `(a, b)`, `enumerate((a, b)[, start])`, `zip((a, b), (c, d))` and a new single-definition local bound to such a literal"""
+    if isinstance(it, (ast.Tuple, ast.List)):
+        return it
+    if depth > 2:
+        return None
+    if isinstance(it, ast.Call) and isinstance(it.func, ast.Name) and not any(k.arg is None for k in it.keywords):
+        if it.func.id == "enumerate" and 1 <= len(it.args) <= 2:
+            inner = _literal_iter(it.args[0], func, ref_locals, depth + 1)
+            start = it.args[1] if len(it.args) == 2 else next((k.value for k in it.keywords if k.arg == "start"), ast.Constant(value=0))
+            if inner is None or not (isinstance(start, ast.Constant) and isinstance(start.value, int)):
+                return None
+            return ast.Tuple(elts=[ast.Tuple(elts=[ast.Constant(value=start.value + i), el], ctx=ast.Load()) for i, el in enumerate(inner.elts)], ctx=ast.Load())
+        if it.func.id == "zip" and len(it.args) >= 2 and not it.keywords:
+            inners = [_literal_iter(a, func, ref_locals, depth + 1) for a in it.args]
+            if any(x is None for x in inners) or len({len(x.elts) for x in inners}) != 1:
+                return None
+            return ast.Tuple(elts=[ast.Tuple(elts=[x.elts[i] for x in inners], ctx=ast.Load()) for i in range(len(inners[0].elts))], ctx=ast.Load())
+    if isinstance(it, ast.Name) and it.id not in ref_locals:
+        defs = [st for st in ast.walk(func) if isinstance(st, ast.Assign) and any(isinstance(t, ast.Name) and t.id == it.id for t in st.targets)]
+        stores = [n for n in ast.walk(func) if isinstance(n, ast.Name) and n.id == it.id and isinstance(n.ctx, (ast.Store, ast.Del))]
+        if len(defs) == 1 and len(stores) == 1 and isinstance(defs[0].value, (ast.Tuple, ast.List)) and all(_simple(e) for e in defs[0].value.elts):
+            # the elements must not be rebound between the definition and the loops (conservatively: never rebound in the function after being defined once)
+            return defs[0].value
+    return None
+
+
 def unroll_literal_loops(func, ref_locals: Set[str]) -> bool:
     """`for x in (a, b, c): body` with x a new local (or a tuple of new locals over a literal of literal tuples), no break / continue / else, body not assigning x:
     the body is repeated with x replaced by each element"""
@@ -967,7 +1037,10 @@ def unroll_literal_loops(func, ref_locals: Set[str]) -> bool:
         done = False
         for blk in list(_blocks(func)):
             for i, st in enumerate(list(blk)):
-                if not (isinstance(st, ast.For) and isinstance(st.iter, (ast.Tuple, ast.List)) and not st.orelse and 0 < len(st.iter.elts) <= 32):
+                if not (isinstance(st, ast.For) and not st.orelse):
+                    continue
+                lit = _literal_iter(st.iter, func, ref_locals)
+                if lit is None or not (0 < len(lit.elts) <= 32):
                     continue
                 tg = st.target
                 names = [tg.id] if isinstance(tg, ast.Name) else [e.id for e in tg.elts] if isinstance(tg, ast.Tuple) and all(isinstance(e, ast.Name) for e in tg.elts) else None
@@ -981,14 +1054,14 @@ def unroll_literal_loops(func, ref_locals: Set[str]) -> bool:
                     continue            # the loop variable is read after the loop
                 out = []
                 ok = True
-                for el in st.iter.elts:
+                for el in lit.elts:
                     if isinstance(tg, ast.Name):
                         if not (_simple(el) or isinstance(el, ast.Constant)):
                             ok = False
                             break
                         mapping = {tg.id: el}
                     else:
-                        if not (isinstance(el, (ast.Tuple, ast.List)) and len(el.elts) == len(names) and all(_simple(x) for x in el.elts)):
+                        if not (isinstance(el, (ast.Tuple, ast.List)) and len(el.elts) == len(names) and all(_simple(x) or isinstance(x, ast.Constant) for x in el.elts)):
                             ok = False
                             break
                         mapping = dict(zip(names, el.elts))
